@@ -71,7 +71,7 @@ pub fn run(args: &Args) -> Out {
         let v: Value = serde_json::from_str(&std::fs::read_to_string(p).ok()?).ok()?;
         v["replay"]["case"].as_u64().map(|x| x as usize)
     });
-    for idx in 0..args.n(48, 960) {
+    for idx in 0..args.n(144, 1440) {
         if let Some(o) = only {
             if o != idx {
                 continue;
